@@ -4,7 +4,7 @@
 From Coq Require Import NArith List Bool.
 From AJ Require Import Model.Base Model.Pool Proofs.PoolProofs Model.Collection Proofs.CollProofs.
 From AJ Require Import Model.Value Model.JsonParse Model.MsgPack Proofs.ResourceBound.
-From AJ Require Import Model.StrBuild Proofs.StrBuildProofs.
+From AJ Require Import Model.StrBuild Proofs.StrBuildProofs Proofs.StrBufProofs.
 Local Open Scope N_scope.
 
 (* when no allocation fails — and also when some do — slots released by a removal are reused by later insertions
@@ -156,3 +156,37 @@ Theorem C06_last_release_frees_the_node : forall g st x, SInv g st -> In x (sb_p
     (mk (firstn k (sb_pool st) ++ skipn (S k) (sb_pool st)) (sb_scratch st), [EvFree (size_for g (n_len x))]).
 Proof. exact deref_node_last. Qed.
 Print Assumptions C06_last_release_frees_the_node.
+
+(* ---- the same for StringBuffer, the MessagePack reader's string storage (reserve(n), fill, save()) ---- *)
+Theorem C06_buffer_nodes_invariant : forall g ops ans, BInv g (fst (bf_run g bf_init ans ops)).
+Proof. exact reachable_BInv. Qed.
+Print Assumptions C06_buffer_nodes_invariant.
+
+Theorem C06_buffer_stores_the_bytes_once : forall g st ans s st' ans' ev x,
+  BInv g st -> bf_store g st ans s = (st', ans', ev, Some x) ->
+  n_content x = s /\ n_len x = N.of_nat (length s) /\ n_data x = s /\
+  In x (bf_pool st') /\ occ s (bf_pool st') = 1%nat.
+Proof. exact bstore_stored. Qed.
+Print Assumptions C06_buffer_stores_the_bytes_once.
+
+Theorem C06_buffer_failure_touches_nothing : forall g st ans s st' ans' ev,
+  bf_store g st ans s = (st', ans', ev, None) -> bf_pool st' = bf_pool st /\ bf_node st' = None.
+Proof. exact bstore_fail_clean. Qed.
+Print Assumptions C06_buffer_failure_touches_nothing.
+
+(* with an allocator that always answers, a string is refused exactly when it is longer than the length limit *)
+Theorem C06_buffer_fails_only_beyond_the_limit : forall g st ans s, BInv g st -> alltrue ans ->
+  (snd (bf_store g st ans s) = None <-> s_max g < blen s).
+Proof. exact bstore_alltrue_iff. Qed.
+Print Assumptions C06_buffer_fails_only_beyond_the_limit.
+
+(* at most two allocator events per string: free + exact allocation, or one shrinking reallocation of a kept node *)
+Theorem C06_buffer_at_most_two_calls : forall g st ans s st' ans' ev r,
+  bf_store g st ans s = (st', ans', ev, r) -> (length ev <= 2)%nat.
+Proof. exact bstore_events_count2. Qed.
+Print Assumptions C06_buffer_at_most_two_calls.
+
+Theorem C06_buffer_store_n_release_n : forall g s n st ans st' ans',
+  BInv g st -> bstore_n g st ans s n = Some (st', ans') -> bf_pool (bderef_n g st' s n) = bf_pool st.
+Proof. exact bstore_deref_n. Qed.
+Print Assumptions C06_buffer_store_n_release_n.
